@@ -94,7 +94,7 @@ def dict_words():
 FEATURES = ['deep_ns', 'global_enc', 'shared_itf', 'empty_itf', 'no_ports', 'inout_mix',
             'out_many_formals', 'nested_enum', 'outer_enum', 'injected', 'same_name_siblings',
             'multi_id_ns', 'reopened_ns', 'system_enc', 'partial_spelling', 'distractors',
-            'many_ports', 'subint_reply', 'bool_reply', 'mc_ready', 'ref_extern', 'prefix_ports', 'mirror_ns', 'many_provides', 'prefix_ns', 'many_requires', 'shadow_ns', 'repeat_ns', 'name_like_ns', 'api_names', 'dict_names', 'one_way_itf', 'big']
+            'many_ports', 'subint_reply', 'bool_reply', 'mc_ready', 'ref_extern', 'prefix_ports', 'mirror_ns', 'many_provides', 'prefix_ns', 'many_requires', 'shadow_ns', 'repeat_ns', 'name_like_ns', 'api_names', 'dict_names', 'one_way_itf', 'big', 'sub_events']
 
 
 def _uniq(draw, pool, taken, n=1):
@@ -133,6 +133,10 @@ def shell_model(draw, force=None, max_ports=6, collide=False):  # pylint: disabl
     else:
         NS_POOL, TYPE_POOL, COMP_POOL, FIELD_POOL, PORT_POOL, EVENT_POOL, FORMAL_POOL = \
             G_NS_POOL, G_TYPE_POOL, G_COMP_POOL, G_FIELD_POOL, G_PORT_POOL, G_EVENT_POOL, G_FORMAL_POOL
+    if 'sub_events' in feats:
+        # event names that contain one another (Release / ReleaseNow / Rel): a look-up by substring or
+        # prefix picks the wrong one
+        EVENT_POOL = ['Release', 'ReleaseNow', 'Rel', 'Claim', 'ClaimNow', 'Cl', 'NowRelease', 'Re']  # pylint: disable=invalid-name
     if 'big' in feats:
         # sizes: many ports, many events, many formals, long names
         long_id = 'with_a_very_long_name_that_goes_on_and_on_' + '0123456789_' * 7
@@ -384,6 +388,8 @@ def shell_model(draw, force=None, max_ports=6, collide=False):  # pylint: disabl
         itf_fqn = tuple(sc) + tuple(itf['name'])
         ev_taken = set()
         n_in = draw(st.integers(2 if 'mc_ready' in feats else 1, 4))
+        if 'sub_events' in feats:
+            n_in = draw(st.integers(4, 6))
         if 'big' in feats:
             n_in = draw(st.integers(5, 8))
         n_out = draw(st.integers(4, 6)) if 'big' in feats else draw(st.integers(1 if ({'mc_ready', 'prefix_ports', 'out_inout', 'out_many_formals',
@@ -405,6 +411,8 @@ def shell_model(draw, force=None, max_ports=6, collide=False):  # pylint: disabl
                     rk = 'bool'
                 if 'mc_ready' in feats and j < 2:
                     rk = 'enum' if j == 0 else 'void'
+                if 'sub_events' in feats:
+                    rk = 'enum' if j % 2 == 0 else 'void'  # every event is a possible claim / release
                 if rk == 'bool':
                     ev['ret'] = ['bool']
                 elif rk in ('enum', 'subint'):
